@@ -21,33 +21,56 @@ def handle_dumps(vis):
 
 def cb_value(rnd, d=0):
     """a value for the copy-with-budget cases: nested arrays / objects (keys unique per object) of small integers, booleans, null and
-    short strings — nothing that needs an extension slot"""
+    short strings, and scalars that keep their bytes in an extension slot (doubles that are not floats, integers beyond 32 bits)"""
     k = rnd.random()
     if d >= 3 or k < 0.35:
-        return rnd.choice(["1", "7", "-3", "true", "false", "null", '"s"', '"key"', "0"])
+        return rnd.choice(["1", "7", "-3", "true", "false", "null", '"s"', '"key"', "0", "1.5", "-2.5e200", "5000000000", "-3000000000", "2147483647", "-2147483648", "1e300"])
     if k < 0.68:
         return "[" + ",".join(cb_value(rnd, d + 1) for _ in range(rnd.randrange(0, 5))) + "]"
     keys = rnd.sample(["a", "b", "c", "key", "x", ""], rnd.randrange(0, 4))
     return "{" + ",".join('"%s":%s' % (kk, cb_value(rnd, d + 1)) for kk in keys) + "}"
+
+def cb_ext(v):
+    import struct
+    if isinstance(v, bool) or v is None or isinstance(v, str):
+        return 0
+    if isinstance(v, int):
+        return 1 if (v < -2 ** 31 or v >= 2 ** 32) else 0
+    if isinstance(v, float):
+        try:
+            return 0 if struct.unpack("f", struct.pack("f", v))[0] == v else 1     # a double that is exactly a float is stored as a float
+        except OverflowError:
+            return 1
+    return 0
 
 def cb_slots(v):
     if isinstance(v, list):
         return sum(1 + cb_slots(e) for e in v)
     if isinstance(v, dict):
         return sum(2 + cb_slots(e) for e in v.values())
-    return 0
+    return cb_ext(v)
+
+def cb_eq(p, v):
+    """equality of a dumped value with the source value; floating-point leaves within C12's parsing tolerance"""
+    if isinstance(v, float) and isinstance(p, (float, int)) and not isinstance(p, bool):
+        return abs(p - v) <= 1e-12 * abs(v)
+    if isinstance(v, list):
+        return isinstance(p, list) and len(p) == len(v) and all(cb_eq(x, y) for x, y in zip(p, v))
+    if isinstance(v, dict):
+        return isinstance(p, dict) and list(p.keys()) == list(v.keys()) and all(cb_eq(p[k], v[k]) for k in v)
+    return type(p) == type(v) and p == v
 
 def cb_trunc(p, v):
     """p is what a copy of v may leave behind: the same value, or arrays cut after a fully copied element, objects cut after a
     member whose own value is such a truncation"""
     if isinstance(v, list):
-        return isinstance(p, list) and len(p) <= len(v) and all(x == y for x, y in zip(p, v))
+        return isinstance(p, list) and len(p) <= len(v) and all(cb_eq(x, y) for x, y in zip(p, v))
     if isinstance(v, dict):
         if not isinstance(p, dict) or list(p.keys()) != list(v.keys())[:len(p)]:
             return False
         ks = list(p.keys())
-        return all(p[k] == v[k] for k in ks[:-1]) and (not ks or cb_trunc(p[ks[-1]], v[ks[-1]]))
-    return p == v
+        return all(cb_eq(p[k], v[k]) for k in ks[:-1]) and (not ks or cb_trunc(p[ks[-1]], v[ks[-1]]))
+    return cb_eq(p, v) or (p is None and cb_ext(v) == 1)      # a scalar whose extension slot could not be had stays null
 
 def check(run):
     rnd = random.Random(run.seed * 275604541 + 5)
@@ -194,6 +217,7 @@ def check(run):
     # --- copying a value when only b more slots can be had (Model/CopyBudget.v): result, destination and the number of slots
     # still free afterwards must be the model's, for every budget from 0 to "enough"
     import json as _json
+    import gen_doc as _gd0
     from gen_doc import parse_dump as _pd
     def _plain(d):
         # dump value -> python value comparable with json.loads of the source text (ints, bools, None, str, list, dict)
@@ -202,6 +226,7 @@ def check(run):
         if d[0] == "o": return {k.decode("latin1"): _plain(x) for k, x in d[1]}
         if d[0] == "i": return d[1]
         if d[0] == "s": return d[1].decode("latin1")
+        if d[0] in "FD": return float(_gd0.num_value(d))
         return ("other", d)
     implc = vlib.need_harness("doc_h", cfg)
     cb_lines, cb_meta = [], []
@@ -223,7 +248,7 @@ def check(run):
             oracle_fail.append((cfg, l, "a failed copy sets overflowed(); every block returns to the allocator", o[:200])); continue
         okc, d, rem = o.split(" ")[:3]
         p = _plain(_pd(d))
-        if okc == "true" and (p != v or b < need or int(rem) != b - need):
+        if okc == "true" and (not cb_eq(p, v) or b < need or int(rem) != b - need):
             oracle_fail.append((cfg, l, f"a copy that reports success is complete and uses exactly {need} slots", o[:200]))
         elif okc == "false" and (b >= need or not cb_trunc(p, v)):
             oracle_fail.append((cfg, l, "a copy fails only for lack of slots and leaves a truncation of the source (whole elements, whole members) in the destination", o[:200]))
@@ -234,6 +259,9 @@ def check(run):
     def _tod(v):
         if v is None or v is True or v is False: return v
         if isinstance(v, int): return ("i", v)
+        if isinstance(v, float):
+            import struct
+            return ("D", struct.unpack(">Q", struct.pack(">d", v))[0])
         if isinstance(v, str): return ("s", v.encode())
         if isinstance(v, list): return [_tod(x) for x in v]
         return ("o", [(("s", k.encode()), _tod(x)) for k, x in v.items()])
@@ -268,7 +296,7 @@ def check(run):
                 oracle_fail.append((cfg, l, f"NoMemory sets overflowed(); the document is reusable after clear(); every block returned [{rdefs}]", o[:200])); continue
             code, d = body.split(" ")[:2]
             p = _plain(_pd(d))
-            if code == "Ok" and (p != v or b < need):
+            if code == "Ok" and (not cb_eq(p, v) or b < need):
                 oracle_fail.append((cfg, l, f"Ok means the whole document ({need} slots needed, {b} available) [{rdefs}]", o[:200]))
             elif code == "NoMemory" and b >= need:
                 oracle_fail.append((cfg, l, f"NoMemory only for lack of slots ({need} needed, {b} available) [{rdefs}]", o[:200]))
